@@ -21,10 +21,23 @@ import numpy as np
 from .. import tlc
 
 HALF_PI = np.pi / 2
+# UrdfFKQ's table of angles with rational cosine and sine (index -> angle): quarter turns, then the 3-4-5 angles
+ANGLES_Q = {0: 0.0, 1: HALF_PI, 2: np.pi, 3: -HALF_PI, 4: float(np.arctan2(4.0, 3.0)), 5: float(np.arctan2(-3.0, 4.0)), 6: float(np.arctan2(-3.0, -4.0))}
+OBLIQUE = False      # set by run(): the cases come from UrdfFKQ (angles are table indices, numbers are rationals [num, den])
+
+
+def ang(k):
+    return ANGLES_Q[int(k)] if OBLIQUE else float(k) * HALF_PI
+
+
+def num(x):
+    """a number / vector / matrix of the spec as floats"""
+    a = np.asarray(x, dtype=float)
+    return a[..., 0] / a[..., 1] if OBLIQUE else a
 
 
 def rpy_str(t):
-    return " ".join(repr(float(k) * HALF_PI) for k in t)
+    return " ".join(repr(ang(k)) for k in t)
 
 
 def xyz_str(v):
@@ -47,11 +60,11 @@ def write_urdf(path, case):
 
 
 def rpy_matrix(t):
-    r, p, y = (k * HALF_PI for k in t)
+    r, p, y = (ang(k) for k in t)
     Rx = np.array([[1, 0, 0], [0, np.cos(r), -np.sin(r)], [0, np.sin(r), np.cos(r)]])
     Ry = np.array([[np.cos(p), 0, np.sin(p)], [0, 1, 0], [-np.sin(p), 0, np.cos(p)]])
     Rz = np.array([[np.cos(y), -np.sin(y), 0], [np.sin(y), np.cos(y), 0], [0, 0, 1]])
-    return np.round(Rz @ Ry @ Rx)
+    return Rz @ Ry @ Rx if OBLIQUE else np.round(Rz @ Ry @ Rx)
 
 
 def request(case, variant):
@@ -62,7 +75,7 @@ def request(case, variant):
         t = j["type"]
         if t in ("revolute", "continuous"):
             if j["q"] != 0:
-                cfg[n] = j["q"] * HALF_PI
+                cfg[n] = ang(j["q"])
             if j["qd"] != 0:
                 vel[n] = float(j["qd"])
         elif t == "prismatic":
@@ -75,11 +88,11 @@ def request(case, variant):
             vel[n] = np.array([j["qd"], j["qd2"]], dtype=float)
         elif t == "floating":
             if variant % 2 == 0:
-                cfg[n] = np.concatenate([np.array(j["fr"], dtype=float), np.array(j["frpy"], dtype=float) * HALF_PI])
+                cfg[n] = np.concatenate([np.array(j["fr"], dtype=float), np.array([ang(k) for k in j["frpy"]])])
             else:
                 from cardillo.math import Spurrier
                 cfg[n] = np.concatenate([np.array(j["fr"], dtype=float), Spurrier(rpy_matrix(j["frpy"]))])
-            vel[n] = np.concatenate([np.array(j["fv"], dtype=float), np.zeros(3)])
+            vel[n] = np.concatenate([np.array(j["fv"], dtype=float), np.array(j["fw"], dtype=float)])
     return cfg, vel
 
 
@@ -89,6 +102,10 @@ def check_case(ctx, case, e, path, k):
     root = case["root"]
     types = [j["type"] for j in case["joints"]]
     key = "+".join(sorted(set(types))) if len(set(types)) == 1 else "tree"
+    if OBLIQUE:
+        key = "oblique:" + key
+        case = dict(case, joints=[dict(j, axis=num(j["axis"]).tolist()) for j in case["joints"]])
+        e = dict(root={kk: num(v) for kk, v in e["root"].items()}, links=[{kk: num(v) for kk, v in b.items()} for b in e["links"]])
     w = dict(root=dict(r=root["r"], rpy=root["rpy"], floating=root["floating"]), joints=[{kk: j[kk] for kk in ("type", "axis", "xyz", "rpy", "q", "qd", "parent")} for j in case["joints"]])
     cfg, vel = request(case, k)
     w["configuration"] = {n: np.asarray(v).tolist() for n, v in cfg.items()}
@@ -160,7 +177,7 @@ def check_case(ctx, case, e, path, k):
             continue
         jo = system.contributions_map[n]
         if j["type"] in ("revolute", "continuous"):
-            cmp(f"angle({n}) reported joint angle", [jo.angle(t0, q0[jo.qDOF])], [j["q"] * HALF_PI])
+            cmp(f"angle({n}) reported joint angle", [jo.angle(t0, q0[jo.qDOF])], [ang(j["q"])])
             cmp(f"angle_dot({n}) reported joint rate", [jo.angle_dot(t0, q0[jo.qDOF], u0[jo.uDOF])], [float(j["qd"])])
     return ok
 
@@ -171,15 +188,18 @@ def run(ctx):
     counts = {}
     nok = 0
     samples = []
-    plan = (("single", 3 if ctx.thorough else 12), ("tree", 9 if ctx.thorough else 60))
+    global OBLIQUE
+    plan = (("UrdfFK", "single", 3 if ctx.thorough else 12), ("UrdfFK", "tree", 9 if ctx.thorough else 60),
+            ("UrdfFKQ", "single", 2 if ctx.thorough else 12), ("UrdfFKQ", "chain", 1 if ctx.thorough else 4))
     path = os.path.join(ctx.scratch, "robot.urdf")
-    for fam, stride in plan:
-        cfg = os.path.join(ctx.scratch, f"urdf_{fam}.cfg")
+    for module, fam, stride in plan:
+        OBLIQUE = module == "UrdfFKQ"
+        cfg = os.path.join(ctx.scratch, f"urdf_{module}_{fam}.cfg")
         with open(cfg, "w") as f:
             f.write(f'SPECIFICATION Spec\nCONSTANTS\n  Family = "{fam}"\n  Stride = {stride}\nINVARIANT OracleOK\n')
-        dot = os.path.join(ctx.scratch, f"urdf_{fam}")
-        r = tlc.run_tlc("UrdfFK", cfg, scratch=ctx.scratch, dump_dot=dot, timeout=3000)
-        tlc.require_ok(r, f"UrdfFK {fam}")
+        dot = os.path.join(ctx.scratch, f"urdf_{module}_{fam}")
+        r = tlc.run_tlc(module, cfg, scratch=ctx.scratch, dump_dot=dot, timeout=3000)
+        tlc.require_ok(r, f"{module} {fam}")
         if r.violated:
             ctx.violation(f"spec:{r.violated}", f"TLC: {r.violated} violated", {"stdout": r.stdout[-3000:]})
             continue
@@ -192,11 +212,14 @@ def run(ctx):
             case, e = st["case"], st["expected"]
             for j in case["joints"]:
                 counts[j["type"]] = counts.get(j["type"], 0) + 1
+                if OBLIQUE:
+                    counts["(oblique)"] = counts.get("(oblique)", 0) + 1
             if check_case(ctx, case, e, path, k):
                 nok += 1
-            if len(samples) < 2 and k % 97 == 5:
+            if len(samples) < 2 and k % 97 == 5 and not OBLIQUE:
                 samples.append({"joints": [{kk: j[kk] for kk in ("type", "axis", "xyz", "rpy", "q", "qd", "parent")} for j in case["joints"]], "expected_link_1": e["links"][0]})
-        ctx.log(f"[C28] family {fam}: {len(finals)} robots imported (stride {stride})")
+        ctx.log(f"[C28] {module} family {fam}: {len(finals)} robots imported (stride {stride})")
+    OBLIQUE = False
     total = sum(counts.values())
     if total == 0:
         raise tlc.MachineryError("no URDF cases produced")
@@ -204,10 +227,13 @@ def run(ctx):
     ctx.coverage = {"states": states, "transitions": max(trans, 1), "traces_validated_against_impl": nok, "samples": samples, "exhaustive": False,
                     "joints_by_type": counts,
                     "rule": "single joints: 3 roots x 6 types x 6 axes x 8 origin rotations x 3 coordinates x 2 rates; trees: 3 roots x 7^3 joint menus x 6 parent assignments; "
-                            "a deterministic stride thins both families (quick 12 / 60, thorough 3 / 9)"}
-    ctx.assumptions = ["rotations are octahedral (rpy and joint angles multiples of a quarter turn), translations and rates integers: the forward kinematics are exact integers",
-                       "planar joints are generated with axis z and coordinates (x, y) in the joint frame (the importer's reading of the type); floating joints get no relative "
-                       "angular velocity (the importer's velocity convention for them is not fixed by URDF)",
+                            "a deterministic stride thins both families (quick 12 / 60, thorough 3 / 9); UrdfFKQ (rational angles and axes): single joints 3 roots x 6 types x 5 axes x "
+                            "7 origin rotations x 3 coordinates x 2 rates (stride 12 / 2), chains of two joints from a menu of 7 with both parent assignments (stride 4 / 1)"}
+    ctx.assumptions = ["rotations are octahedral (UrdfFK: rpy and joint angles multiples of a quarter turn, signed coordinate axes) or have rational sine and cosine (UrdfFKQ: the "
+                       "3-4-5 angles, unit axes (3,4,0)/5, (0,-4,3)/5, (1,2,2)/3); translations and rates integers: the forward kinematics are exact integers / rationals",
+                       "planar joints are generated with axis z and coordinates (x, y) in the joint frame (the importer's reading of the type); the velocity of a floating joint is (linear rate, relative "
+                       "angular velocity) in the joint frame; URDF does not fix whether the linear part is the rate of the displacement or the velocity of the child-fixed point at the "
+                       "joint origin, so floating joints with a relative spin are generated without displacement (both readings agree there)",
                        "a non-floating root is at rest"]
 
 
